@@ -5,30 +5,23 @@ open PylifeVerif.Meanstress
 
 instance : NatCast Float := ⟨Float.ofNat⟩
 
+/-- How a double sits in a float column: IEEE infinities and NaN are the constructors of `ExtR`. -/
 def toExt (x : Float) : ExtR Float :=
   if x.isNaN then .nan else if x.isInf then (if x > 0 then .pinf else .ninf) else .fin x
 
-def nanTo (d x : Float) : Float := if x.isNaN then d else x
+/-- `int(np.ceil(x))` for `x ≥ 0`. -/
+def ceilNat (x : Float) : Nat := (Float.ceil x).toUInt64.toNat
 
-/-- The cycle `(amplitude, R)` as the accessors of `load_collective.py` / `load_histogram.py` compute it.
-kind `rm`: DataFrame with `range`, `mean`; `ft`: DataFrame with `from`, `to`;
-`h`: histogram with class-mid range `x` (= |from-to| resp. the range mid) and class-mid mean `y`. -/
-def mkCycle (kind : String) (x y : Float) : Cyc Float :=
-  match kind with
-  | "h" =>
-    let amp := x / 2.0
-    ⟨amp, toExt (nanTo 0.0 ((y - amp) / (y + amp)))⟩
-  | _ =>
-    let (fr, to) := if kind == "rm" then (y - x / 2.0, y + x / 2.0) else (x, y)
-    let amp := Float.abs (fr - to) / 2.0
-    -- DataFrame.max/min(axis=1) skip NaN
-    let upper := if fr.isNaN then to else if to.isNaN then fr else if fr < to then to else fr
-    let lower := if fr.isNaN then to else if to.isNaN then fr else if fr < to then fr else to
-    ⟨amp, toExt (nanTo 0.0 (lower / upper))⟩
+def parseIface : String → Option Iface
+  | "rm" => some .rm
+  | "ft" => some .ft
+  | "h" => some .h
+  | _ => none
 
 def parseDiagram (kind : String) (p : List Float) : Option (List (Seg Float)) :=
   match kind, p with
   | "g", [m, m2] => some (goodman m m2)
+  | "g", [m] => some (goodmanDefault m)
   | "f", [m0, m1, m2, m3, m4, r12, r23] => some (fiveSegment m0 m1 m2 m3 m4 r12 r23)
   | "d", l =>
     let rec go : List Float → Option (List (Seg Float))
@@ -38,31 +31,32 @@ def parseDiagram (kind : String) (p : List Float) : Option (List (Seg Float)) :=
     go l
   | _, _ => none
 
-/-- One pass of `HaighDiagram.transform` on a frame of cycles; the result frame is (`range`, `mean`). -/
-def transformFrame (D : List (Seg Float)) (g : Float) (kind : String) (xy : Float × Float) : Float × Float :=
-  let c := transform D (toExt g) (mkCycle kind xy.1 xy.2)
-  (2.0 * c.amp, resultMean c)
-
 def pairs : List Float → List (Float × Float)
   | a :: b :: r => (a, b) :: pairs r
   | _ => []
 
-def triples : List Float → List (Float × Float × Float)
-  | a :: b :: c :: r => (a, b, c) :: triples r
-  | _ => []
-
-/-- `res.load_collective.amplitude` of a (`range`, `mean`) frame. -/
-def frameAmp (xy : Float × Float) : Float :=
-  Float.abs ((xy.2 - xy.1 / 2.0) - (xy.2 + xy.1 / 2.0)) / 2.0
+/-- `<node> <np> <params…> <x> <y> <count>` per class. -/
+partial def parseCells : List String → Option (List (Cell Float))
+  | [] => some []
+  | node :: np :: rest => do
+    let node ← node.toNat?
+    let np ← np.toNat?
+    let ps ← parseFloats (rest.take np)
+    let D ← parseDiagram "g" ps
+    match ← parseFloats ((rest.drop np).take 3) with
+    | [x, y, n] => (← parseCells ((rest.drop np).drop 3)) |> fun tl => some (⟨node, D, x, y, n⟩ :: tl)
+    | _ => none
+  | _ => none
 
 /--
 `mst <kind> <diag> <np> <params…> <ng> <goals…> <x y>…`  — successive transforms of every cycle;
   answer per cycle `amplitude range mean` of the last result frame.
-`mstmat <diag> <np> <params…> <goal> <binsize> <rng mean count>…` — matrix interface: answer
-  `n` followed by the class sums.
+`mstmat <goal> <binsize> <nnodes> (<node> <np> <M [M2]> <x> <y> <count>)…` — matrix interface with the keys
+  `0 … nnodes-1` of the remaining index levels: answer `n` followed by the `n` class sums of every key.
 -/
 def handleMeanstress : List String → Option String
   | "mst" :: kind :: dk :: np :: rest => do
+    let kind ← parseIface kind
     let np ← np.toNat?
     let ps ← parseFloats (rest.take np)
     let D ← parseDiagram dk ps
@@ -70,26 +64,16 @@ def handleMeanstress : List String → Option String
     let ng ← (← rest.head?).toNat?
     let goals ← parseFloats ((rest.drop 1).take ng)
     let cyc ← parseFloats ((rest.drop 1).drop ng)
-    let out := (pairs cyc).map fun xy =>
-      match goals with
-      | [] => xy
-      | g :: gs =>
-        let r := transformFrame D g kind xy
-        gs.foldl (fun r g => transformFrame D g "rm" r) r
+    let out := (pairs cyc).map (transformChain toExt D kind (goals.map toExt))
     some (" ".intercalate (out.map fun r => s!"{floatHex (frameAmp r)} {floatHex r.1} {floatHex r.2}"))
-  | "mstmat" :: dk :: np :: rest => do
-    let np ← np.toNat?
-    let ps ← parseFloats (rest.take np)
-    let D ← parseDiagram dk ps
-    let fl ← parseFloats (rest.drop np)
-    match fl with
-    | g :: binsize :: cells =>
-      let items := (triples cells).map fun (x, y, n) => ((transformFrame D g "h" (x, y)).1, n)
-      let mx := items.foldl (fun m it => if it.1 > m then it.1 else m) (items.headD (0.0, 0.0)).1
-      let n := (Float.ceil (mx / binsize)).toUInt64.toNat
-      let sums := rebin (linspace0 mx n) items
-      some (" ".intercalate (toString n :: sums.map floatHex))
-    | _ => none
+  | "mstmat" :: g :: binsize :: nn :: rest => do
+    let g := toExt (← parseFloat? g)
+    let binsize ← parseFloat? binsize
+    let nn ← nn.toNat?
+    let cells ← parseCells rest
+    let n := (matBreaks toExt ceilNat g binsize cells).length - 1
+    let sums := (List.range nn).flatMap fun k => matrixTransform toExt ceilNat g binsize cells k
+    some (" ".intercalate (toString n :: sums.map floatHex))
   | _ => none
 
 end PylifeVerif.Driver
